@@ -1116,3 +1116,85 @@ theorem alts_tokens {ks : List (List Char)} {T : List Char} (h : Tokens ks T) (h
   simp
 
 end Semver
+
+namespace Semver
+open Pred Bound Spec Spec.Npm
+
+/-! ### the wider garbage class: every closed token the parser does not recognise -/
+
+/-- a closed token in which the parser recognises no comparator (`1.2.3.4`, `>=1.y`, `1.`, `foo`, …):
+"unparseable tokens are dropped" -/
+def ClosedGarbage (tok : List Char) : Prop := ClosedTok tok ∧ (simple tok).1 = none
+
+theorem closedGarbage_ok : GarbageOK ClosedGarbage := by
+  constructor
+  · intro tok rest hg hr
+    rw [(simple_closed hg.1.solid hg.1.notHungry hr).1, hg.2]
+  · intro tok hg
+    exact hg.1.head
+
+/-- the parser-independent class is part of it -/
+theorem garbageTok_closed {tok : List Char} (h : GarbageTok tok) : ClosedGarbage tok := by
+  have hp := garbageTok_ok.parse tok [] h ⟨rfl, fun u hu => by simp [dropBlanks, span] at hu⟩
+  simp only [List.append_nil] at hp
+  obtain ⟨c, u, rfl, hstart, hall⟩ := h
+  simp only [tokenStart, Bool.or_eq_false_iff, beq_eq_false_iff_ne, ne_eq] at hstart
+  obtain ⟨⟨⟨⟨⟨⟨⟨⟨⟨⟨⟨⟨h1, h2⟩, h3⟩, h4⟩, h5⟩, h6⟩, h7⟩, h8⟩, h9⟩, h10⟩, h11⟩, h12⟩, h13⟩ := hstart
+  refine ⟨⟨?_, ?_, ?_⟩, by rw [hp]⟩
+  · intro d hd
+    have := hall d hd
+    rw [blank_eq] at this; exact this
+  · unfold hungry
+    have e1 : vEmpty (c :: u) = false := by
+      unfold vEmpty
+      simp only [List.isEmpty_cons, Bool.false_or]
+      cases u with
+      | nil => simp [h6]
+      | cons d ds => simp
+    have e2 : operation (c :: u) = none := operation_none_of_head h8 h9 h7
+    rw [e1, e2]
+    simp only [Bool.false_or, Bool.or_false]
+    split
+    · rename_i r heq; simp at heq; exact absurd heq.1 h10
+    · rename_i r heq; simp at heq; exact absurd heq.1 h11
+    · rfl
+  · intro v hv
+    simp at hv
+    exact h12 hv.1
+
+theorem simpleTextG_mono {G G' : List Char → Prop} (hGG : ∀ t, G t → G' t) {s : Simple} {t : List Char}
+    (h : SimpleTextG G s t) : SimpleTextG G' s t := by
+  cases h with
+  | prim hg ht => exact .prim hg ht
+  | bare ht => exact .bare ht
+  | tilde hg ht => exact .tilde hg ht
+  | tildeGt hg hg2 ht => exact .tildeGt hg hg2 ht
+  | caret hg ht => exact .caret hg ht
+  | garbage hg => exact .garbage (hGG _ hg)
+
+theorem simplesTextG_mono {G G' : List Char → Prop} (hGG : ∀ t, G t → G' t) {l : List Simple} {t : List Char}
+    (h : SimplesTextG G l t) : SimplesTextG G' l t := by
+  induction h with
+  | nil => exact .nil
+  | one hs => exact .one (simpleTextG_mono hGG hs)
+  | cons hs hb _ hne ih => exact .cons (simpleTextG_mono hGG hs) hb ih hne
+
+theorem altTextG_mono {G G' : List Char → Prop} (hGG : ∀ t, G t → G' t) {a : Alt} {t : List Char}
+    (h : AltTextG G a t) : AltTextG G' a t := by
+  cases h with
+  | simples hl => exact .simples (simplesTextG_mono hGG hl)
+  | hyphen ha hb1 hb2 hc => exact .hyphen ha hb1 hb2 hc
+
+theorem altsTextG_mono {G G' : List Char → Prop} (hGG : ∀ t, G t → G' t) {r : Ast} {t : List Char}
+    (h : AltsTextG G r t) : AltsTextG G' r t := by
+  induction h with
+  | nil => exact .nil
+  | one ha => exact .one (altTextG_mono hGG ha)
+  | cons ha ho _ hne ih => exact .cons (altTextG_mono hGG ha) ho ih hne
+
+/-- every text of the grammar with the narrow garbage class is a text of the grammar with the wide one -/
+theorem astText_closed {r : Ast} {s : List Char} (h : AstText r s) : AstTextG ClosedGarbage r s := by
+  obtain ⟨b1, T, b2, hs, hb1, hb2, hT⟩ := h
+  exact ⟨b1, T, b2, hs, hb1, hb2, altsTextG_mono (fun _ => garbageTok_closed) hT⟩
+
+end Semver
